@@ -19,7 +19,12 @@ def execute(c):
         def warm(tt):
             redirect_tree(tt, len(tt) - 1, sort=True); redirect_tree(tt, 0, sort=False); tt.get_branches()
             tt.traverse(enter=lambda n, p: 0, leave=lambda n, cs: 0)
-        t = lib.via_edit(c, c["P"], lambda Q: lib.mk_tree(Q, c["attr"]), warm)       # one case in four: the tree got its shape by an in-place edit after it was used
+        if "shift" in c:
+            t = lib.mk_tree(c["P"], c["attr"])          # a tree whose root is not its node 0
+            if lib.vid(c) % 4 == 3:
+                warm(t)
+        else:
+            t = lib.via_edit(c, c["P"], lambda Q: lib.mk_tree(Q, c["attr"]), warm)       # one case in four: the tree got its shape by an in-place edit after it was used
         snap = lib.snapshot(t)
         if lib.vid(c) % 5 == 2:
             lib.scribble(redirect_tree(t, c["i"], sort=bool(c["sort"])))            # an earlier result of the same call, overwritten in place by its owner
